@@ -2057,6 +2057,74 @@ func c09Prefix(w *World, r *Result) {
 	if !found {
 		r.Bad(rule, "prefix:store", "-", "no computed value is stored into the parser's prefix")
 	}
+	prefixSpellable(w, r, rule)
+}
+
+// prefixSpellable: a prefixed name (prefix + separator + name) must not be a word of the user
+// identifier language, or a definition of another file that is spelled like it takes its
+// place: with the separator "_" and a prefix made of a letter and hexadecimal digits,
+// hfa12bad_helper is a perfectly legal function name of the importing file.
+func prefixSpellable(w *World, r *Result, rule string) {
+	for _, fn := range w.Funcs("parser") {
+		if fn.Signature.Recv() != nil || fn.Parent() != nil || len(fn.Params) != 2 || !isString(fn.Params[0].Type()) || !isString(fn.Params[1].Type()) {
+			continue
+		}
+		res := fn.Signature.Results()
+		if res.Len() != 1 || !isString(res.At(0).Type()) {
+			continue
+		}
+		// joins its two parameters: both flow into the result
+		joins := false
+		var lits []string
+		for _, b := range fn.Blocks {
+			for _, ins := range b.Instrs {
+				switch x := ins.(type) {
+				case *ssa.BinOp:
+					if x.Op == token.ADD && isString(x.Type()) {
+						joins = true
+						for _, side := range []ssa.Value{x.X, x.Y} {
+							if k, ok := side.(*ssa.Const); ok && k.Value != nil && k.Value.Kind() == constant.String {
+								lits = append(lits, constant.StringVal(k.Value))
+							}
+						}
+					}
+				case *ssa.Call:
+					if callee := x.Call.StaticCallee(); callee != nil && callee.String() == "fmt.Sprintf" {
+						if k, ok := x.Call.Args[0].(*ssa.Const); ok && k.Value != nil {
+							joins = true
+							lits = append(lits, strings.ReplaceAll(constant.StringVal(k.Value), "%s", ""))
+						}
+					}
+				}
+			}
+		}
+		usesPrefixTest := false
+		for _, b := range fn.Blocks {
+			for _, ins := range b.Instrs {
+				if c, ok := ins.(*ssa.Call); ok {
+					if callee := c.Call.StaticCallee(); callee != nil && callee.String() == "strings.HasPrefix" {
+						usesPrefixTest = true
+					}
+				}
+			}
+		}
+		if !joins || !usesPrefixTest {
+			continue
+		}
+		sep := strings.Join(lits, "")
+		legal := sep != ""
+		for _, ch := range sep {
+			if !(ch == '_' || (ch >= 'a' && ch <= 'z') || (ch >= 'A' && ch <= 'Z') || (ch >= '0' && ch <= '9')) {
+				legal = false
+			}
+		}
+		key := "prefix:spellable:" + FuncName(fn)
+		if legal {
+			r.Bad(rule, key, w.Pos(fn.Pos()), fmt.Sprintf("a prefixed name is prefix + %q + name, every character of which may occur in a user identifier: the importing file can define (or call) h<digest>%sname itself, which then stands for the imported file's definition", sep, sep))
+		} else {
+			r.Ok(rule, key, w.Pos(fn.Pos()), fmt.Sprintf("prefixed names contain %q, which no user identifier can", sep))
+		}
+	}
 }
 
 // firstCharClass: "letter", "hex", "digit", "?" for the first character of a string value.
